@@ -188,7 +188,7 @@ theorem gen_warmup_mix_eq (a : K) (x y l m : Dual K) :
       = Numeric.warmupMix a x.v y.v l.v m.v := by
   first
   | rfl
-  | (simp only [Numeric.warmupMix, Dual.smul, Prod.mk.injEq]; constructor <;> ring)
+  | (simp only [Numeric.warmupMix, Dual.add_v, Dual.smul_v, Prod.mk.injEq]; constructor <;> first | trivial | rfl | ring)
 
 /-- **C20 on the generated code, convex combination.**  The regenerated mixture is `α·v_b + (1−α)·v_wb`
 (and the same for the losses); its weights `α`, `1−α` sum to one, and for `0 ≤ α ≤ 1` both are
@@ -198,7 +198,7 @@ theorem gen_warmup_mix (a vb vwb lb lwb : K) :
   refine ⟨?_, by ring⟩
   first
   | rfl
-  | (simp only [Numeric.warmupMix, Prod.mk.injEq]; constructor <;> ring)
+  | (simp only [Numeric.warmupMix, Prod.mk.injEq]; constructor <;> first | trivial | rfl | ring)
 
 end warmup
 
